@@ -62,8 +62,32 @@ def consumedBeforeMark (icalls : String) : Bool :=
       | none => false
     | _ => false
 
+/-- `runner <offsets> <init> <n>`: the real prober component consumed the planted queue with every probe failing.
+Model: one prober client popping up to `n` probes at once and failing each (`pop|n|fail`).  Oracle on the
+implementation's output: the component went quiet, it created no NEW mark without a probe (marks the planted state
+already had unbacked are not its doing), and its queue metrics count what was popped and what had expired. -/
+def handleRunner (initS n : String) (out : List String) : Verdict :=
+  match kv out "dump", kv out "met", modelRun {} (fun _ => 0) initS s!"pop|{n}|fail" (",".intercalate (List.replicate 400 "c0")) with
+  | some idump, some imet, some m =>
+    let idump := if idump = "-" then "" else idump
+    let before := orphans (";".intercalate (dumpState m.s0.abs))
+    let fresh := (orphans idump).filter fun o => !before.contains o
+    -- the model's prober reports `popped:<k>:<expired>` first
+    let mmet := match (m.res.splitOn "+").head? with
+      | some t => (match t.splitOn ":" with | ["popped", k, e] => s!"{k}:{e}" | _ => "?")
+      | none => "?"
+    let quiet := out.contains "quiet"
+    let same := m.dump == idump && mmet == imet
+    let ok := fresh.isEmpty && quiet && mmet == imet
+    let why := (if fresh.isEmpty then "" else s!"sig=orphan-mark:{(fresh.map fun o => o.1 ++ ":goal" ++ o.2)} ") ++
+      (if quiet then "" else "sig=runner-not-quiet ") ++ (if mmet == imet then "" else s!"sig=queue-metrics model-met={mmet} impl-met={imet} ") ++
+      (if m.dump == idump then "" else s!"model-dump={m.dump}")
+    verdict same ok why
+  | _, _, _ => .bad "C16 runner shape"
+
 def handle (args out : List String) : Verdict :=
   match args with
+  | ["runner", _, initS, n] => handleRunner initS n out
   | ["uc", initS, clientS, _] =>
     match kv out "eff", kv out "calls", kv out "res", kv out "dump", modelRun {} (fun _ => 0) initS clientS ((kv out "eff").getD "-") with
     | some ieff, some icalls, some ires, some idump, some m =>
